@@ -24,6 +24,8 @@ func init() {
 			ruleGroupMisc(c, "R4")
 			ruleGroupStateOnEveryPath(c, "R5")
 			rulePoolReleaseOnce(c, "R6")
+			ruleRouterNameSetFirst(c, "R7")
+			rulePortCutAtLastColon(c, "R8")
 		},
 	})
 	register(&Spec{
@@ -38,6 +40,10 @@ func init() {
 			ruleHostsGuards(c, "R3")
 			ruleBacktrackUndo(c, "R4")
 			ruleHandlerLookup(c, "R5")
+			rulePortCutAtLastColon(c, "R6")
+			ruleDigitPredicates(c, "R7", "mux.validOptionalPort")
+			ruleRegexpQuoting(c, "R8")
+			ruleIndexResetOnEveryPath(c, "R2c")
 		},
 	})
 	register(&Spec{
@@ -543,6 +549,19 @@ func rulePathVersion(c *Ctx, rule string) {
 				},
 			}).Search(an.After(e))
 			c.R.Add(rule, c.fk(ctor), "store:version[i]/on-every-path", c.pos(e), path == nil, ifelse(path == nil, "every version is written back after normalisation", "a version can pass through the constructor loop without its normalised form being stored (for example one that already ends in '/' but lacks the leading '/')"))
+			// and the loop is left only through its header: a `break` leaves the remaining versions unnormalised
+			hb := l.hdr.Block()
+			early := (&an.Query{
+				Block:     func(in ssa.Instruction) bool { return in == e },
+				BlockEdge: func(b *ssa.BasicBlock, succ int) bool { return b == hb && succ == 1 },
+				Target: func(in ssa.Instruction) bool {
+					if _, isPanic := in.(*ssa.Panic); isPanic {
+						return false
+					}
+					return in.Block() == hb.Succs[1] || hb.Succs[1].Dominates(in.Block())
+				},
+			}).Search(an.After(e))
+			c.R.Add(rule, c.fk(ctor), "normalisation-loop/no-early-exit", c.pos(e), early == nil, ifelse(early == nil, "every listed version is normalised", "the normalisation loop can stop early: the versions listed after that point keep their raw form and never match (or match without their slashes)"))
 		}
 	}
 }
